@@ -656,6 +656,10 @@ search_page_desc(kdump_ctx_t *ctx, kdump_pfn_t pfn,
 		}
 		if (block && off - block->filepos > UINT32_MAX) {
 			idx = pfn_idx3(curpfn) - block->idx3;
+			/* A page which is already indexed must not be
+			 * dropped by the split and indexed again. */
+			if (!idx || (idx <= block->n && block->offs[idx - 1]))
+				return error_dup(ctx, off, block, curpfn);
 			res = split_pfn_block(ctx, block, idx);
 			if (res != KDUMP_OK)
 				return set_error(ctx, res,
